@@ -4,7 +4,7 @@
 From Coq Require Import List NArith Bool.
 From Conductor Require Import Lib.Str Lib.Path Gen.Generated Model.Cwd Model.ArchiveOut Proofs.GenTieArchiveOut.
 Import ListNotations.
-Open Scope N_scope.
+Local Open Scope N_scope.
 
 Definition probe_of (ex isdir : path -> bool) (cwd : path) (raw : option user_path) : out_probe :=
   match raw with
